@@ -31,7 +31,7 @@ from harness.vlib.core import Ctx, ToolFailure
 from . import corpus, gen, sink
 
 MODEL_FILES = ["MypyVerif/Model/ErrPos.lean", "MypyVerif/Model/Errors.lean", "MypyVerif/Model/ExitStatus.lean",
-               "MypyVerif/Gen/ErrorCodes.lean", "MypyVerif/Proofs/Errors.lean"]
+               "MypyVerif/Gen/ErrorCodes.lean", "MypyVerif/Gen/ExitRule.lean", "MypyVerif/Proofs/Errors.lean"]
 DRIVER = "Driver/C13.lean"
 NOTE_MARK = ": note:"
 
@@ -588,7 +588,7 @@ def judge_runs(ctx: Ctx, results: list[dict]) -> None:
                 probs = oracle_ignore_delta(base, v, annots)
                 ctx.case(("meta", r["name"], v["annots"]))
                 if probs:
-                    ctx.report({"class": "ignore-not-exact", "detail": classify_delta(probs)},
+                    report_capped(ctx, {"class": "ignore-not-exact", "detail": classify_delta(probs)},
                                "adding `# type: ignore` changed the output of %s by more/less than the matching diagnostics: %s" % (r["name"], probs[0]["text"]),
                                {"kind": "metamorphic", "name": r["name"], "src": r["src"], "flags": r["flags"], "annots": v["annots"],
                                 "problems": [p["text"] for p in probs[:6]], "before": out0, "after": out1})
@@ -614,7 +614,7 @@ def judge_runs(ctx: Ctx, results: list[dict]) -> None:
                 if out1 != want:
                     extra = [t for t in out1 if key5(t) not in {key5(x) for x in want}]
                     missing = [t for t in want if key5(t) not in {key5(x) for x in out1}]
-                    ctx.report({"class": "disable-not-exact", "code": v["code"]},
+                    report_capped(ctx, {"class": "disable-not-exact", "code": v["code"]},
                                "--disable-error-code %s changed other diagnostics of %s (extra %s, missing %s)" % (v["code"], r["name"], json.dumps(extra[:2]), json.dumps(missing[:2])),
                                {"kind": "metamorphic", "name": r["name"], "src": r["src"], "flags": v["flags"], "base_flags": r["flags"],
                                 "inline": v["inline"], "before": out0, "after": out1})
@@ -630,7 +630,7 @@ def judge_runs(ctx: Ctx, results: list[dict]) -> None:
                 ctx.case(("meta-enable", r["name"], v["code"]))
                 nexp += 1
                 if rest != [t for t in out0 if not carries(t, cid, stored_codes(base))]:
-                    ctx.report({"class": "enable-not-exact", "code": v["code"]},
+                    report_capped(ctx, {"class": "enable-not-exact", "code": v["code"]},
                                "--enable-error-code %s changed diagnostics of %s that do not carry that code" % (v["code"], r["name"]),
                                {"kind": "metamorphic", "name": r["name"], "src": r["src"], "flags": v["flags"], "base_flags": r["flags"],
                                 "inline": v["inline"], "before": out0, "after": out1})
@@ -643,6 +643,16 @@ def judge_runs(ctx: Ctx, results: list[dict]) -> None:
             ctx.sample({"program": r["name"], "flags": r["flags"], "stdout": r["base"]["stdout"][:300],
                         "variants": [{k: v.get(k) for k in ("kind", "annots", "code", "modes")} for v in r["variants"][:3]]})
             break
+
+
+def report_capped(ctx: Ctx, observed: dict, what: str, replay, cap: int = 4) -> None:
+    """ctx.report, but at most `cap` VIOLATION lines per class (known findings are never capped: they print once)."""
+    if ctx.match_known(observed) is None:
+        key = "violations_of_class_" + observed["class"]
+        ctx.count(key)
+        if ctx.coverage[key] > cap:
+            return
+    ctx.report(observed, what, replay)
 
 
 def _last_main(obs: list, base: dict) -> list:
@@ -676,7 +686,7 @@ def judge_exit(ctx: Ctx, r: dict, run: dict, src: str, flags: list[str], m: list
                        "src": src, "flags": flags}, found_input=False)
     if status != truth:
         errs = [f for f, t in zip(formatted, tuples) if t[5] == "error"]
-        ctx.report({"class": "exit-status", "status": status, "truth": truth,
+        report_capped(ctx, {"class": "exit-status", "status": status, "truth": truth,
                     "every_error_line_contains_note_marker": bool(errs) and all(NOTE_MARK in e for e in errs)},
                    "exit status %d but the truth rule gives %d (blockers=%s, error-severity messages=%d) for %s: %s"
                    % (status, truth, run["blockers"], len(errs), r["name"], errs[:1]),
@@ -693,8 +703,10 @@ def main(ctx: Ctx) -> None:
                             "caller-controlled text in messages, each run through mypy.api.run with the sink recorded, "
                             "then with ignores added / a code disabled / enabled — non-trivial = produced diagnostics; "
                             "distinct by content.")
-    from translate import errorcodes
+    from translate import errorcodes, exitrule
     errorcodes.main()
+    exitrule.main()
+    ctx.coverage["exit_rule_recognised"] = "%s, main status computation recognised: %s" % exitrule.classify()
     proved = ctx.prove("MypyVerif.Props.C13", MODEL_FILES)
     ctx.trusted("model: Errors.report/add_error_info/is_ignored_error/is_error_code_enabled/generate_unused_ignore_errors/"
                 "generate_ignore_without_code_errors/file_messages(sort, remove_duplicates, render) and main's status from count_stats; "
